@@ -85,7 +85,7 @@ func GetMaxReplicaCountAndDeleteSlots(replicas int32, deleteSlots sets.Int32) (i
 		deleteSlotsCopy.Insert(k)
 	}
 	for _, deleteSlot := range deleteSlotsCopy.List() {
-		if deleteSlot < replicaCount {
+		if deleteSlot >= 0 && deleteSlot < replicaCount {
 			replicaCount++
 		} else {
 			deleteSlotsCopy.Delete(deleteSlot)
